@@ -28,11 +28,19 @@ def shard_main(pid, spec_path, out_path):
         H.assert_repo_import()
     from . import smooth as S
     S.MONITOR.update(R=R, pid=pid)
+    H.PICK_OFFSET = 7919 * int(spec.get("sub", 0) or 0)
     try:
         mod.run_shard(spec, R)
-    except Exception:
-        # an exception of the harness/oracle itself is never a violation
-        R.inconclusive_because(f"shard {spec.get('kind')} raised: {traceback.format_exc()[-1500:]}")
+    except Exception as exc:
+        # an exception of the harness/oracle itself is never a violation; one raised *inside the tree under test* on an
+        # input the workload treats as in-contract (it did not expect or catch it) is an observed failure of that code
+        tb = traceback.extract_tb(exc.__traceback__)
+        inner = tb[-1] if tb else None
+        if inner is not None and os.path.realpath(inner.filename).startswith(str(H.REPO) + os.sep):
+            R.violation(f"{pid}:unexpected-exception", f"{type(exc).__name__}: {str(exc)[:160]} raised in {os.path.relpath(inner.filename, H.REPO)}:{inner.lineno} ({inner.name}) "
+                        f"under {' <- '.join(f'{os.path.basename(f.filename)}:{f.lineno}' for f in reversed(tb[-4:-1]))}", {"shard_spec": spec})
+        else:
+            R.inconclusive_because(f"shard {spec.get('kind')} raised: {traceback.format_exc()[-1500:]}")
     Path(out_path).write_text(json.dumps(R.dump()))
     return 0
 
